@@ -1041,6 +1041,12 @@ def declare_rules(ck):
             "for every shape and every d the index set (get_index_set<c,f>) resp. target set (get_target_set<d>) written under "
             "<Topology dim=d>/<Mapping dim=d> is the one the reader fills for that attribute value (input class: any mesh of that "
             "shape; a swapped pair stores e.g. vertices-at-edge into vertices-at-quad)", 30)
+    ck.rule("E11.angles-roundtrip",
+            "the yaw/pitch/roll values Extrude::write reconstructs from the rotation matrix reproduce that matrix when read back: with "
+            "R(yaw,pitch,roll) taken from Tiny::Matrix::set_rotation_3d, the token->parameter binding and the revolution scaling from "
+            "ExtrudeChartParser, and the writer's formulas per branch (generic pitch, pitch = +-1/4 revolution; the branch is selected by "
+            "evaluating the writer's own conditions on sample matrices), R(written angles) - R(original) simplifies to 0 with sympy; a "
+            "violation needs a numeric counterexample (input class: an Extrude chart with that pitch)", 3)
     ck.rule("E12.buffer-layout",
             "Graph::serialize and Graph(buffer) agree in cursor form: every header slot is read back into the field it was written "
             "from (sizes re-derived symbolically), payload segments have the same order, start and length, the payload fills the "
@@ -1130,6 +1136,7 @@ def run(tier):
     rule_dim_binding(ck, W, facts)
     rule_buffer_layout(ck, W, gfacts)
     rule_ini(ck, W, pfacts)
+    rule_angles(ck, W, facts)
 
     ck.assume("integer arithmetic is idealised (no wrap-around) except where a rule says otherwise; E7.token-guard / E2.attr-index-range / "
               "E12.buffer-layout(header-domain) decide index ranges on the bounded model 0..%d per free symbol (all guards are linear comparisons)" % MAXV)
@@ -2412,6 +2419,7 @@ class Emitter:
         self.W = W
         self.ck = ck
         self._emits = {}
+        self._blank_field = {}
 
     def emits(self, f, seen=None):
         if f.full in self._emits:
@@ -2492,6 +2500,16 @@ class Emitter:
                 return False
             return self._mutations_blank(f.nodes(), lambda o: strip(o).get("k") == "Ref" and strip(o).get("n") == n["n"], f, subst, depth)
         if is_this_field(n):
+            mk_ = (f.cls, n["n"])
+            if mk_ in self._blank_field:
+                return self._blank_field[mk_]
+            self._blank_field[mk_] = False
+            self._blank_field[mk_] = self._space_field(f, n, depth)
+            return self._blank_field[mk_]
+        return False
+
+    def _space_field(self, f, n, depth):
+        if True:
             fns = [g for g in self.W.fns.values() if g.cls == f.cls]
             inits_ok = True
             for g in fns:
@@ -3037,7 +3055,8 @@ def quantity(node):
 
 
 def trace_attr(f, expr, depth=0):
-    """attribute name K if expr is (derived from) attrs.find(K)->second, following local/field bindings"""
+    """attribute name K if expr is (derived from) attrs.find(K)->second, following local/field bindings (the binding that
+    textually precedes the use most closely counts: `it` may be re-declared per attribute)"""
     for z in walk(expr):
         if z.get("k") == "MCall" and z.get("n") == "find" and z.get("a") and str_value(z["a"][0]) is not None:
             return str_value(z["a"][0])
@@ -3046,6 +3065,8 @@ def trace_attr(f, expr, depth=0):
     r = root_var(expr)
     if r is None:
         return None
+    pos = min([x.get("i") for x in walk(expr) if x.get("i") is not None] or [1 << 30])
+    best, best_init = -1, None
     for n in f.nodes():
         tgt, init = None, None
         if n.get("k") == "Var" and n.get("init") is not None:
@@ -3055,9 +3076,11 @@ def trace_attr(f, expr, depth=0):
         elif n.get("k") == "Assign" and n.get("op") == "=":
             tgt, init = root_var(n["lhs"]), n["rhs"]
         if tgt == r and init is not None and root_var(init) != r:
-            k = trace_attr(f, init, depth + 1)
-            if k is not None:
-                return k
+            i0 = min([x.get("i") for x in walk(init) if x.get("i") is not None] or [-1])
+            if best < i0 < pos:
+                best, best_init = i0, init
+    if best_init is not None:
+        return trace_attr(f, best_init, depth + 1)
     return None
 
 
@@ -3068,13 +3091,16 @@ def token_table(W, f, attr, cfs):
         if not (n.get("k") == "Var" and n.get("init") is not None):
             continue
         init = strip(n["init"])
-        if not (init.get("k") == "MCall" and init.get("callee") == "FEAT::String::split_by_string" and init.get("a")):
+        if not (init.get("k") == "MCall" and init.get("callee") in SPLITS):
+            continue
+        if init.get("callee") == "FEAT::String::split_by_string" and not init.get("a"):
             continue
         if trace_attr(f, init.get("obj")) != attr:
             continue
         D = n["n"]
-        sep = str_value(init["a"][0])
-        x = strip(init["a"][0])
+        ws = init.get("callee") == "FEAT::String::split_by_whitespaces"
+        sep = " " if ws else str_value(init["a"][0])
+        x = None if ws else strip(init["a"][0])
         while sep is None and x is not None and x.get("k") in ("Construct", "TempObj") and len(x.get("a", [])) == 1:
             x = strip(x["a"][0])
             sep = str_value(x)
@@ -4204,14 +4230,23 @@ def class_size_table(cfs, all_parser_fns):
                 if fld in sizes and sizes[fld] != v:
                     bad.add(fld)
                 sizes[fld] = v
-    for g in all_parser_fns:
-        for n in g.nodes():
-            if n.get("k") == "MCall" and (n.get("ccls") or "").startswith("std::") and n.get("n") in STD_MUTATORS and n.get("n") != "resize" \
-               and is_this_field(n.get("obj")) and strip(n["obj"])["n"] in sizes and n.get("n") not in ("get", "str"):
-                bad.add(strip(n["obj"])["n"])
-            if n.get("k") == "OpCall" and n.get("op") == "=" and n.get("a") and is_this_field(n["a"][0]) and strip(n["a"][0])["n"] in sizes:
-                bad.add(strip(n["a"][0])["n"])
+    key = id(all_parser_fns)
+    if key not in _MUTATED:
+        mut = set()
+        for g in all_parser_fns:
+            for n in g.nodes():
+                if n.get("k") == "MCall" and (n.get("ccls") or "").startswith("std::") and n.get("n") in STD_MUTATORS and n.get("n") != "resize" \
+                   and is_this_field(n.get("obj")) and n.get("n") not in ("get", "str"):
+                    mut.add(strip(n["obj"])["n"])
+                if n.get("k") == "OpCall" and n.get("op") == "=" and n.get("a") and is_this_field(n["a"][0]):
+                    mut.add(strip(n["a"][0])["n"])
+        _MUTATED.clear()
+        _MUTATED[key] = mut
+    bad |= _MUTATED[key]
     return {f: v for f, v in sizes.items() if f not in bad}
+
+
+_MUTATED = {}
 
 
 def loop_header(n):
@@ -4325,3 +4360,402 @@ def rule_loop_range(ck, W, pcs, facts):
         ck.ob("E2.loop-range", key, not rec["probs"],
               "; ".join(sorted(set(rec["probs"]))[:3]) or "index inside the container; tested containers are covered completely (%d loop instance(s))" % rec["n"],
               rec["fn"].file, rec["line"])
+
+
+# -------------------------------------------------------------------------------------------------
+# E11.angles-roundtrip: Extrude::write reconstructs yaw/pitch/roll from the rotation matrix the reader builds from them
+# -------------------------------------------------------------------------------------------------
+
+class SymExec:
+    """symbolic execution of loop-free numeric code into sympy: const locals, assignments, if/else forks.  Conditions that
+    contain opaque values (anything that is not arithmetic over the tracked symbols) stay free: both branches are explored."""
+
+    MATH = {"FEAT::Math::atan2": "atan2", "FEAT::Math::sqrt": "sqrt", "FEAT::Math::sin": "sin", "FEAT::Math::cos": "cos",
+            "FEAT::Math::abs": "Abs", "FEAT::Math::atan": "atan", "FEAT::Math::asin": "asin", "FEAT::Math::acos": "acos"}
+
+    def __init__(self, fn):
+        import sympy
+        self.sp = sympy
+        self.fn = fn
+        self.opaque = set()
+        self.capture = None       # predicate on an emission statement -> list of operand nodes to evaluate
+        self.paths = []
+
+    def sym(self, name, **kw):
+        return self.sp.Symbol(name, real=True, **kw)
+
+    def sx(self, n, env):
+        sp = self.sp
+        n = strip(n)
+        if n is None:
+            raise Unknown("empty")
+        k = n.get("k")
+        if k == "Int":
+            return sp.Integer(int(n["v"]))
+        if k == "Float":
+            return sp.Rational(n.get("text") or n["v"])
+        if k == "Bool":
+            return sp.true if n["v"] else sp.false
+        if k == "Ref":
+            if n.get("dk") in ("local", "param"):
+                if n["n"] in env:
+                    return env[n["n"]]
+                return self.sym("v_" + n["n"])
+            if "v" in n:
+                return sp.Integer(int(n["v"]))
+        if k == "Un" and n["op"] == "-":
+            return -self.sx(n["e"], env)
+        if k == "Un" and n["op"] == "!":
+            return sp.Not(self.sx(n["e"], env))
+        if k == "Bin":
+            op = n["op"]
+            a, b = self.sx(n["lhs"], env), self.sx(n["rhs"], env)
+            if op == "+":
+                return a + b
+            if op == "-":
+                return a - b
+            if op == "*":
+                return a * b
+            if op == "/":
+                return a / b
+            if op in CMP:
+                return {"<": sp.Lt, ">": sp.Gt, "<=": sp.Le, ">=": sp.Ge, "==": sp.Eq, "!=": sp.Ne}[op](a, b)
+            if op == "&&":
+                return sp.And(a, b)
+            if op == "||":
+                return sp.Or(a, b)
+        if k == "Call":
+            cal = n.get("callee") or ""
+            args = n.get("a", [])
+            if cal in self.MATH:
+                return getattr(sp, self.MATH[cal])(*[self.sx(a, env) for a in args])
+            if cal == "FEAT::Math::sqr" and len(args) == 1:
+                return self.sx(args[0], env) ** 2
+            if cal == "FEAT::Math::pi":
+                return sp.pi
+            if cal == "FEAT::Math::eps":
+                return self.sym("eps", positive=True)
+            if cal == "FEAT::Math::pow" and len(args) == 2:
+                return sp.Pow(self.sx(args[0], env), self.sx(args[1], env))
+        if k == "OpCall" and n.get("op") == "()" and len(n.get("a", [])) == 3 and is_this_field(n["a"][0]) \
+           and all(strip(a).get("k") == "Int" for a in n["a"][1:]):
+            return self.sym("M_%s_%s_%s" % (strip(n["a"][0])["n"], strip(n["a"][1])["v"], strip(n["a"][2])["v"]))
+        s = self.sym("o_" + re.sub(r"\W+", "_", norm(n))[:60])
+        self.opaque.add(s)
+        return s
+
+    def run(self, env=None):
+        self._exec([self.fn.body], dict(env or {}), [], None)
+        return self.paths
+
+    def _exec(self, stmts, env, conds, captured):
+        """execute the statement list; `stmts` is a work list (continuation) so that forks see the rest of the function"""
+        stmts = list(stmts)
+        while stmts:
+            n = stmts.pop(0)
+            if n is None:
+                continue
+            k = n.get("k")
+            if k == "Block":
+                stmts = list(n.get("s", [])) + stmts
+            elif k == "Decl":
+                for v in n.get("vars", []):
+                    if v.get("init") is not None:
+                        try:
+                            env[v["n"]] = self.sx(v["init"], env)
+                        except Unknown:
+                            env.pop(v["n"], None)
+            elif k == "Assign":
+                l = strip(n["lhs"])
+                if l.get("k") == "Ref":
+                    try:
+                        val = self.sx(n["rhs"], env)
+                        cur = env.get(l["n"], self.sym("v_" + l["n"]))
+                        env[l["n"]] = {"=": val, "*=": cur * val, "+=": cur + val, "-=": cur - val, "/=": cur / val}.get(n["op"], val)
+                    except Unknown:
+                        env.pop(l["n"], None)
+                elif is_this_field(l):
+                    try:
+                        val = self.sx(n["rhs"], env)
+                        cur = env.get("@" + l["n"], self.sym("f_" + l["n"]))
+                        env["@" + l["n"]] = {"=": val, "*=": cur * val, "+=": cur + val, "-=": cur - val, "/=": cur / val}.get(n["op"], val)
+                    except Unknown:
+                        pass
+                else:
+                    env.setdefault("\0stores", []).append((n["lhs"], self.sx(n["rhs"], env)))
+            elif k == "If":
+                try:
+                    c = self.sx(n["c"], env)
+                except Unknown:
+                    c = None
+                e1, e2 = dict(env), dict(env)
+                if "\0stores" in env:
+                    e1["\0stores"], e2["\0stores"] = list(env["\0stores"]), list(env["\0stores"])
+                self._exec([n.get("then")] + stmts, e1, conds + [(c, True)], captured)
+                self._exec([n.get("else")] + stmts, e2, conds + [(c, False)], captured)
+                return
+            elif k == "Return":
+                break
+            elif k == "Throw":
+                return          # rejected input: not a path of interest
+            elif k == "OpCall" and n.get("op") == "<<" and self.capture is not None:
+                ops = self.capture(n)
+                if ops is not None and captured is None:
+                    try:
+                        captured = [self.sx(o, env) for o in ops]
+                    except Unknown:
+                        captured = None
+            elif k in ("For", "While", "Do", "ForRange"):
+                raise Unknown("loop at line %s" % n.get("l"))
+        self.paths.append((env, conds, captured))
+
+
+def angle_operands(attr):
+    """capture predicate: the value operands the writer emits inside attribute `attr`"""
+    def cap(n):
+        base, ops = flatten_shift(n)
+        out, inside = [], False
+        for o in ops:
+            v = str_value(o)
+            if v is not None and (" %s=\"" % attr) in v:
+                inside = True
+                continue
+            if inside:
+                if v is None:
+                    out.append(o)
+                elif '"' in v:
+                    return out
+        return out if inside else None
+    return cap
+
+
+def rule_angles(ck, W, facts):
+    import random
+    import sympy as sp
+    rule = "E11.angles-roundtrip"
+    writers = [f for f in facts.functions if f.tk != "pattern" and f.name == "write" and re.match(r"FEAT::Geometry::Atlas::Extrude<", f.cls or "") and len(f.params) == 2]
+    if not writers:
+        ck.incomplete(rule, "no instantiation of Atlas::Extrude<...>::write found")
+        return
+    try:
+        tfacts = featlib.extract("tu/c11_meshio.cpp", files=featlib.repo_path("kernel/util/tiny_algebra"), names="set_rotation_3d")
+    except featlib.AnalysisBroken as ex:
+        ck.incomplete(rule, "Tiny::Matrix::set_rotation_3d not extracted: %s" % str(ex)[:100])
+        return
+    ck.tu(tfacts)
+    rot = [f for f in tfacts.functions if f.name == "set_rotation_3d" and "3, 3" in (f.cls or "")]
+    if not rot:
+        ck.incomplete(rule, "Tiny::Matrix<T,3,3>::set_rotation_3d not instantiated")
+        return
+    rot = rot[0]
+    # ---- reader: R(yaw, pitch, roll)
+    ang = [sp.Symbol(nm, real=True) for nm in ("a0", "a1", "a2")]
+    try:
+        se = SymExec(rot)
+        paths = se.run({p["n"]: ang[i] for i, p in enumerate(rot.params[:3])})
+        if len(paths) != 1:
+            raise Unknown("set_rotation_3d is not straight-line")
+        Rm = {}
+        for lhs, val in paths[0][0].get("\0stores", []):
+            l = strip(lhs)
+            if l.get("k") == "OpCall" and l.get("op") == "[]" and strip(l["a"][0]).get("k") == "Index" and is_this_field(strip(l["a"][0])["b"]):
+                i, j = strip(strip(l["a"][0])["idx"]), strip(l["a"][1])
+                if i.get("k") == "Int" and j.get("k") == "Int":
+                    Rm[(int(i["v"]), int(j["v"]))] = val
+        if len(Rm) != 9:
+            raise Unknown("set_rotation_3d assigns %d of 9 entries in a recognised form" % len(Rm))
+    except Unknown as ex:
+        ck.incomplete(rule, "reader formula not extracted: %s" % ex)
+        return
+
+    def Rof(cs):
+        """the reader's matrix with cos/sin of the three angles replaced by the given pairs"""
+        sub = {}
+        for a, (c, s_) in zip(ang, cs):
+            sub[sp.cos(a)] = c
+            sub[sp.sin(a)] = s_
+        return {ij: e.subs(sub, simultaneous=True) for ij, e in Rm.items()}
+
+    probs, unk = {}, {}
+    memo = {}
+    r0memo = {}
+    domains = [("generic", None), ("pitch=+1/4rev", sp.pi / 2), ("pitch=-1/4rev", -sp.pi / 2)]
+    seen_cls = set()
+    for wf in sorted(writers, key=lambda f: f.full):
+        cfs = [g for g in facts.functions if g.cls == wf.cls and g.tk != "pattern"]
+        # which matrix field is set by set_rotation_3d, in which argument order of which setter
+        setter = None
+        for g in cfs:
+            for n in g.nodes():
+                if n.get("k") == "MCall" and n.get("n") == "set_rotation_3d" and is_this_field(n.get("obj")) and len(n.get("a", [])) == 3:
+                    names = [strip(a).get("n") for a in n["a"]]
+                    if all(nm in [p["n"] for p in g.params] for nm in names):
+                        setter = (g, strip(n["obj"])["n"], [[p["n"] for p in g.params].index(nm) for nm in names])
+        if setter is None:
+            ck.incomplete(rule, "%s: no member that feeds its parameters to set_rotation_3d found" % short(wf.cls))
+            continue
+        sfn, field, order = setter          # rotation parameter j receives setter parameter order[j]
+        # reader side: token k of attribute "angles" -> field -> setter argument position, and its scale
+        mesh = first_targ(wf.cls)
+        rp = [pc_ for pc_ in facts.functions if pc_.name == "create" and re.match(r"FEAT::Geometry::Atlas::ExtrudeChartParser<", pc_.cls or "")
+              and first_targ(pc_.cls) == mesh and pc_.tk != "pattern" and pc_.cfg is not None and len(pc_.params) >= 4]
+        mk = [pc_ for pc_ in facts.functions if pc_.name == "markup" and rp and pc_.cls == rp[0].cls]
+        if not rp or not mk:
+            ck.incomplete(rule, "%s: ExtrudeChartParser for %s not instantiated" % (short(wf.cls), mesh))
+            continue
+        create, markup = rp[0], mk[0]
+        tt = token_table(W, create, "angles", [create, markup])
+        if tt is None:
+            ck.incomplete(rule, "ExtrudeChartParser::create: no split of the 'angles' attribute recognised")
+            continue
+        cse = SymExec(create)
+        try:
+            cpaths = cse.run()
+        except Unknown as ex:
+            ck.incomplete(rule, "ExtrudeChartParser::create not evaluable: %s" % ex)
+            continue
+        tok_field = {}
+        for k_, t in tt["tok"].items():
+            if t.get("parsed") is not None and is_this_field(t["parsed"]):
+                tok_field[k_] = strip(t["parsed"])["n"]
+        scales = {}
+        for fld in tok_field.values():
+            vals = set()
+            for env, conds, _ in cpaths:
+                v = env.get("@" + fld)
+                if v is not None:
+                    vals.add(sp.simplify(v / sp.Symbol("f_" + fld, real=True)))
+            scales[fld] = vals
+        setargs = None
+        for n in markup.nodes():
+            if n.get("k") == "MCall" and n.get("n") == sfn.name and len(n.get("a", [])) == len(sfn.params):
+                flds = [strip(a)["n"] if is_this_field(a) else None for a in n["a"]]
+                setargs = flds if setargs in (None, flds) else "?"
+        if not setargs or setargs == "?" or len(tok_field) != 3 or any(len(v) != 1 for v in scales.values()):
+            ck.incomplete(rule, "ExtrudeChartParser: binding of the three angle tokens to %s() not recognised (%s, %s, %s)" % (sfn.name, tok_field, setargs, scales))
+            continue
+        # rotation parameter j <- setter arg order[j] <- field setargs[order[j]] <- token k
+        tok_of_param = []
+        for j in range(3):
+            fld = setargs[order[j]]
+            ks = [k_ for k_, f_ in tok_field.items() if f_ == fld]
+            tok_of_param.append((ks[0] if ks else None, fld))
+        if any(k_ is None for k_, _ in tok_of_param):
+            ck.incomplete(rule, "ExtrudeChartParser: a rotation parameter is not fed from a token of 'angles'")
+            continue
+        # ---- writer paths
+        wse = SymExec(wf)
+        wse.capture = angle_operands("angles")
+        try:
+            wpaths = [p_ for p_ in wse.run() if p_[2] is not None]
+        except Unknown as ex:
+            ck.incomplete(rule, "%s::write not evaluable: %s" % (short(wf.cls), ex))
+            continue
+        if not wpaths or any(len(p_[2]) != 3 for p_ in wpaths):
+            ck.incomplete(rule, "%s::write: emission of three values in attribute 'angles' not recognised" % short(wf.cls))
+            continue
+        Msym = {ij: sp.Symbol("M_%s_%d_%d" % (field, ij[0], ij[1]), real=True) for ij in Rm}
+        rnd = random.Random(11)
+        for dname, pval in domains:
+            key = "Extrude::write/angles:%s" % dname
+            probs.setdefault(key, [])
+            unk.setdefault(key, [])
+            # 1. which writer path handles this domain (numeric evaluation of the path conditions on sample matrices)
+            chosen = set()
+            samples = []
+            for _ in range(6):
+                yv, rv = rnd.uniform(-3, 3), rnd.uniform(-3, 3)
+                pv = float(pval) if pval is not None else rnd.uniform(-1.4, 1.4)
+                samples.append((yv, pv, rv))
+            for yv, pv, rv in samples:
+                num = {Msym[ij]: float(e.subs({ang[0]: yv, ang[1]: pv, ang[2]: rv})) for ij, e in Rm.items()}
+                num[sp.Symbol("eps", real=True, positive=True)] = 1e-16
+                taken = []
+                for idx, (env, conds, emitted) in enumerate(wpaths):
+                    ok = True
+                    for c, want in conds:
+                        if c is None or (c.free_symbols & wse.opaque):
+                            continue
+                        try:
+                            v = bool(c.subs(num))
+                        except TypeError:
+                            continue
+                        if v != want:
+                            ok = False
+                            break
+                    if ok:
+                        taken.append(tuple(emitted))
+                chosen |= set(taken)
+            if len(chosen) != 1:
+                unk[key].append("%d different angle formulas are reachable for this domain" % len(chosen))
+                continue
+            emitted = list(chosen)[0]
+            # 2. the angles the reader obtains: token k -> scale -> rotation parameter j
+            yS, rS, tS = sp.symbols("y r t", real=True)
+            pS = pval if pval is not None else sp.atan(tS)
+            base = {ang[0]: yS, ang[1]: pS, ang[2]: rS}
+            if dname not in r0memo:
+                r0memo[dname] = {ij: sp.simplify(e.subs(base)) for ij, e in Rm.items()}
+            R0 = r0memo[dname]
+            msub = {Msym[ij]: R0[ij] for ij in R0}
+            try:
+                cs = []
+                for j in range(3):
+                    k_, fld = tok_of_param[j]
+                    a_ = sp.expand(sp.simplify(list(scales[fld])[0] * emitted[k_]).subs(msub))
+                    cs.append(angle_cos_sin(sp, a_))
+            except Unknown as ex:
+                unk[key].append("angle expression not of the form c, atan2(y,x) or -atan2(y,x): %s" % ex)
+                continue
+            mkey = (dname, tuple(str(c_) for c_ in cs))
+            if mkey not in memo:
+                R1 = Rof(cs)
+                diff = {ij: sp.simplify(sp.trigsimp(R1[ij] - R0[ij])) for ij in R0}
+                memo[mkey] = {ij: d for ij, d in diff.items() if d != 0}
+            bad = memo[mkey]
+            if not bad:
+                continue
+            # 3. a concrete counterexample makes it definite
+            wit = None
+            for yv, pv, rv in samples:
+                for ij, d in bad.items():
+                    try:
+                        val = abs(complex(d.subs({yS: yv, rS: rv, tS: sp.tan(pv) if pval is None else 0}).evalf()))
+                    except (TypeError, ValueError):
+                        continue
+                    if val > 1e-6:
+                        wit = (yv, pv, rv, ij, val)
+                        break
+                if wit:
+                    break
+            if wit:
+                two_pi = 2 * 3.141592653589793
+                probs[key].append("[%s] the angles written for yaw=%.3f pitch=%.3f roll=%.3f rev give, read back, a rotation matrix whose entry (%d,%d) differs by %.3g from "
+                                  "the original (symbolically %s): write -> read -> write does not reproduce the chart" % (
+                                      short(wf.cls), wit[0] / two_pi, wit[1] / two_pi, wit[2] / two_pi, wit[3][0], wit[3][1], wit[4], str(bad[wit[3]])[:60]))
+            else:
+                unk[key].append("identity R(written angles) == R(original) not proven symbolically (%s) and no numeric counterexample found" % list(bad.items())[:1])
+        seen_cls.add(wf.cls)
+    f0 = sorted(writers, key=lambda f: f.full)[0]
+    for key in sorted(set(probs) | set(unk)):
+        if unk.get(key) and not probs.get(key):
+            undecided(ck, rule, key, "; ".join(sorted(set(unk[key]))))
+            continue
+        ck.ob(rule, key, not probs.get(key), "; ".join(sorted(set(probs.get(key, [])))[:2]) or
+              "reader(writer(reader(yaw,pitch,roll))) == reader(yaw,pitch,roll) proven symbolically (%d Extrude instantiation(s))" % len(seen_cls), f0.file, f0.line)
+
+
+def angle_cos_sin(sp, e):
+    """(cos, sin) of an angle given as a rational multiple of pi, atan2(y, x) or -atan2(y, x), without evaluating atan2"""
+    e = sp.expand(e)
+    if e.func == sp.atan2:
+        Y, X = e.args
+        rho = sp.sqrt(X ** 2 + Y ** 2)
+        return X / rho, Y / rho
+    if e == 0 or (e / sp.pi).is_rational:
+        return sp.cos(e), sp.sin(e)
+    c, rest = e.as_coeff_Mul()
+    if rest.func == sp.atan2 and c in (1, -1):
+        cc, ss = angle_cos_sin(sp, rest)
+        return cc, c * ss
+    raise Unknown(str(e)[:80])
